@@ -27,7 +27,16 @@ std::vector<PairEntry> pairs_from()
 struct Ranges {
     int a, b;
 };
-Ranges ranges(mc::Reporter const& r) { return r.thorough() ? Ranges{2000, 40} : Ranges{200, 3}; }
+// first operand range / second operand range.  The sanitizer flavour is 5-10x slower per call,
+// so its thorough tier uses [-500,500] (props/C12.json states this).
+Ranges ranges(mc::Reporter const& r)
+{
+#if defined(MC_FLAVOUR_SAN)
+    return r.thorough() ? Ranges{500, 40} : Ranges{200, 3};
+#else
+    return r.thorough() ? Ranges{2000, 40} : Ranges{200, 3};
+#endif
+}
 
 template <typename FR, typename TR>
 void pair_job(mc::Reporter& r)
